@@ -126,14 +126,46 @@ impl io::Read for BudgetReader {
             }
         }
         let r = self.inner.read(buf);
+        self.after(&r);
+        r
+    }
+    fn read_vectored(&mut self, bufs: &mut [io::IoSliceMut<'_>]) -> io::Result<usize> {
+        // same bookkeeping as read(): delegate through a zero-length read() prologue
+        // is not possible, so repeat it
+        crate::parent::tick();
+        {
+            let w = lock(&self.world);
+            let call = w.read_calls;
+            if w.read_calls >= self.max_calls {
+                drop(w);
+                std::panic::panic_any(BudgetPanic);
+            }
+            let mut aux = self.aux.lock().unwrap();
+            absorb_sites(&mut aux);
+            let rolls = aux.sites[verif::site::BUF_ROLL as usize];
+            if rolls > aux.rolls_seen {
+                aux.rolls_seen = rolls;
+                aux.reads_after_roll.push(call);
+            }
+            if w.fatal_write_err.is_some() {
+                aux.reads_after_fatal += 1;
+            }
+        }
+        let r = self.inner.read_vectored(bufs);
+        self.after(&r);
+        r
+    }
+}
+
+impl BudgetReader {
+    fn after(&self, r: &io::Result<usize>) {
         if let Ok(n) = r {
-            if n > 0 {
+            if *n > 0 {
                 let w = lock(&self.world);
                 let mut aux = self.aux.lock().unwrap();
                 aux.boundaries.push(w.pos);
             }
         }
-        r
     }
 }
 
